@@ -154,8 +154,51 @@ pub const TYPES: [&str; 7] = [
     "AdjacencyListWeighted<isize>",
 ];
 
+/// Several caller threads ask is_semicomplete / is_tournament at the same
+/// time, each about its own dense digraph (orders below and above 64).
+fn concurrent_predicates(r: &mut Rng, o: &mut CaseOut, max: usize) {
+    let callers = r.range(2, 4);
+    let models: Vec<Model> = (0..callers)
+        .map(|_| {
+            let n = (*r.pick(&[5usize, 17, 40, 64, 65, 80, 100])).min(max);
+            gen::family(r, 16, n) // near_boundary: dense, the answer hinges on one pair
+        })
+        .collect();
+    let bad: Vec<String> = std::thread::scope(|s| {
+        let hs: Vec<_> = models
+            .iter()
+            .enumerate()
+            .map(|(t, m)| {
+                s.spawn(move || {
+                    let d = AdjacencyList::build(m);
+                    let (ws, wt, wc) = (m.is_semicomplete(), m.is_tournament(), m.is_complete());
+                    let mut bad = Vec::new();
+                    for rep in 0..6 {
+                        if d.is_semicomplete() != ws || d.is_tournament() != wt || d.is_complete() != wc {
+                            bad.push(format!("caller {t} repetition {rep}: wrong answer for order {} ({} arcs); definitions say semicomplete {ws} tournament {wt} complete {wc}", m.n(), m.size()));
+                        }
+                    }
+                    bad
+                })
+            })
+            .collect();
+        hs.into_iter().flat_map(|h| h.join().unwrap_or_else(|_| vec!["a caller thread panicked".to_string()])).collect()
+    });
+    o.check(bad.is_empty(), "AdjacencyList::is_semicomplete:wrong-with-concurrent-callers", || crate::ctx::clip(&bad.join(" | ")));
+    o.bump("concurrent_callers");
+    o.fp = Fp::new().s("conc").us(callers).us(models[0].n()).us(models[0].size()).0;
+    o.nontrivial = true;
+    if o.want_desc {
+        o.desc = format!("{callers} threads call AdjacencyList::is_semicomplete/is_tournament/is_complete at the same time on digraphs of orders {:?}", models.iter().map(Model::n).collect::<Vec<_>>());
+    }
+}
+
 pub fn case(idx: u64, seed: u64, p: &Params, o: &mut CaseOut) {
     let mut r = Rng::for_case(12, seed, idx);
+    if p.usize("concurrent", 1) == 1 && idx % 32 == 7 && p.usize("kind", usize::MAX) == usize::MAX {
+        concurrent_predicates(&mut r, o, p.usize("max_order", 100).max(5));
+        return;
+    }
     let max = p.usize("max_order", 40);
     let only = p.usize("kind", usize::MAX);
     let kind = if only < TYPES.len() { only } else { *r.pick(&[0usize, 0, 0, 1, 2, 2, 3, 4, 5, 6]) };
